@@ -171,7 +171,7 @@ class Check(CheckBase):
     rule = ("case library = AKAI length/header/structure sweeps of C01 (quick: every 4th + all boundary lengths) and Roland "
             "chains/window/header sweeps of C02 (quick: every 12th; odd cluster counts make cluster reads straddle 2048-byte "
             "user-data boundaries) x trailing bytes {0,1,2047,2048} (zero and non-zero), one small image with every trailing sector count 0..127 "
-            "(thorough 0..511), truncated payloads (whole sectors dropped; the image ending inside the audio of its last sample, or right behind the last sector of a sample that fills it exactly / nearly; Roland images ending 1..2048 bytes before the end of their last cluster), x the encodings {raw, MODE1/2352, "
+            "(thorough 0..511), truncated payloads (whole sectors dropped; the image ending inside the audio of its last sample, or right behind the last sector of a sample that fills it exactly / nearly; Roland images ending 1..2048 bytes before the end of their last cluster; Roland images with orphan performances), x the encodings {raw, MODE1/2352, "
             "MDX (version 2.1 with the descriptor behind the payload; version 2.0 without), 2352-byte sectors followed by an audio track (bare and through its cue sheet), cue->raw, cue->2352, cue in another directory naming its bin with a path, cue->raw written with lower/mixed case "
             "keywords, header and unknown lines, tabs, blank lines and CR LF} as real files: same image class, character-identical ls text at every node reachable "
             "through the printed names, identical exported trees (paths + bytes); cue dispatch: all combinations of "
@@ -214,6 +214,11 @@ class Check(CheckBase):
         ro = list(itertools.chain(c02.sweep_chains(self.quick), c02.sweep_window(self.quick), c02.sweep_header(self.quick)))
         ro = ro[::12] if self.quick else ro[::2]
         rcases = []
+        # images with performances that no volume references (the pseudo volume that collects them is built by a second scan
+        # of the performance directory)
+        orph = [c for c in c02.sweep_high_slots(self.quick) if c.get("flips") and "orphan" in str(c["flips"][0])]
+        for c in orph[::max(1, len(orph) // (6 if self.quick else 24))]:
+            rcases.append({"fmt": "roland", "model": c["model"], "trailing": 0, "trail_kind": "zero"})
         for i, c in enumerate(ro):
             rcases.append({"fmt": "roland", "model": c["model"], "trailing": [0, 1, 2047, 2048][i % 4], "trail_kind": "zero"})
         # Roland images that end 1..2048 bytes before the end of their last allocated cluster (odd- and even-numbered), the
